@@ -937,6 +937,10 @@ class ConstraintChain:
         """
         self.constraints = constraints
 
+    def __repr__(self) -> str:
+        """Deterministic representation (no object address): chains end up in hashes and reports."""
+        return f"ConstraintChain({self.constraints!r})"
+
     @classmethod
     def _split_parts(cls, constraint_str: str) -> list[str]:
         """Split a constraint string into individual constraint tokens.
